@@ -17,7 +17,17 @@ def enc_id(rng, i):
     return i
 
 
+BARE = [False]      # the peer omits the "jsonrpc" member (what JSONRPCLoose accepts and auto-detection settles on Loose for)
+
+
 def response_payload(rng, pname, rid, outcome):
+    d = _response_payload(rng, pname, rid, outcome)
+    if BARE[0]:
+        d.pop('jsonrpc', None)
+    return d
+
+
+def _response_payload(rng, pname, rid, outcome):
     two = pname != 'v1'
     d = {'jsonrpc': '2.0'} if two else {}
     d['id'] = rid
@@ -74,10 +84,18 @@ class C01(Prop):
             pname = rng.choice(['v1', 'v2', 'v2', 'loose', 'auto'])
             ops, expects = [], []
             counter = 0
+            BARE[0] = pname in ('loose', 'auto') and rng.random() < 0.4
+            conn_kind = pname
+            if BARE[0] and pname == 'auto':
+                # the peer's first message has no "jsonrpc" member: the connection settles on the Loose dialect
+                ops += [['send_request', 'm0', jv.to_plain([])], ['receive', list(json.dumps({'id': 0, 'result': 5}).encode())]]
+                expects += [None, ['complete', [0], [['res', 5]]]]
+                counter = 1
+                pname = 'loose'
             outstanding = {}        # key tuple -> ('one'|'many')
             done = []               # keys already answered (for replays)
             refused = []            # ids consumed by sends the protocol refused (never sent, so never outstanding)
-            first_rx = True
+            first_rx = conn_kind == pname
             for _ in range(rng.randrange(4, 60)):
                 r = rng.random()
                 if r < 0.3 and len(outstanding) < 14:
@@ -183,7 +201,8 @@ class C01(Prop):
                     ops.append(['cancel_all'])
                     expects.append(None)
                     outstanding.clear()
-            yield {'proto': pname, 'ops': ops, 'expects': expects}
+            BARE[0] = False
+            yield {'proto': conn_kind, 'ops': ops, 'expects': expects}
 
     def run_impl(self, case):
         return cm.run_ops(case['proto'], case['ops'])
@@ -233,6 +252,65 @@ class C01(Prop):
                     return 'a rejected response disturbed the outstanding requests'
             pend = o['pending']
         return None
+
+    def extra_checks(self, ctx):
+        """requests whose caller gave up (the awaitable was cancelled - a timeout, a cancelled task) while they are still
+        outstanding: the peer's late response must be consumed quietly and every other outstanding request still completes
+        with what the peer sent under its id"""
+        import asyncio, itertools
+        from aiorpcx import jsonrpc
+        from harness.core import Failure
+        out = []
+        n = 0
+        for pname in ('v1', 'v2', 'loose', 'auto'):
+            for nreq, abandoned in ((3, (0,)), (3, (1,)), (4, (0, 2)), (2, (0, 1)), (5, (4,))):
+                for order in itertools.islice(itertools.permutations(range(nreq)), 0, 24, 5):
+                    loop = asyncio.new_event_loop()
+                    asyncio.set_event_loop(loop)
+                    try:
+                        conn = jsonrpc.JSONRPCConnection(cm.cc.proto_class(pname))
+                        futs = [conn.send_request(jsonrpc.Request('m%d' % i, [i]))[1] for i in range(nreq)]
+                        for i in abandoned:
+                            futs[i].cancel()
+                        obs = {'escaped': None, 'results': {}}
+                        for i in order:
+                            payload = {'id': i, 'result': i * 10}
+                            if pname != 'v1':
+                                payload['jsonrpc'] = '2.0'
+                            else:
+                                payload['error'] = None
+                            try:
+                                conn.receive_message(json.dumps(payload).encode())
+                            except jsonrpc.ProtocolError as e:
+                                obs['escaped'] = 'ProtocolError: ' + str(e)[:80]
+                            except BaseException as e:
+                                obs['escaped'] = type(e).__name__
+                                break
+                        for i, f in enumerate(futs):
+                            obs['results'][str(i)] = ('cancelled' if f.cancelled() else 'pending' if not f.done()
+                                                      else repr(f.exception()) if f.exception() else f.result())
+                        obs['still_outstanding'] = len(conn._requests)
+                    finally:
+                        loop.close()
+                        asyncio.set_event_loop(None)
+                    n += 1
+                    case = {'kind': 'abandoned', 'proto': pname, 'requests': nreq, 'abandoned': list(abandoned), 'response_order': list(order)}
+                    cl = None
+                    if obs['escaped']:
+                        cl = (f"the late response to a request whose caller had given up made receive_message raise {obs['escaped']} "
+                              '(it must be consumed quietly: the id was outstanding)')
+                    elif any(obs['results'][str(i)] != i * 10 for i in range(nreq) if i not in abandoned):
+                        cl = 'a request did not complete with what the peer sent under its id after a late response to an abandoned request'
+                    elif obs['still_outstanding']:
+                        cl = 'ids stayed outstanding although every one of them was answered'
+                    if cl:
+                        out.append(Failure(case, obs, cl))
+                        break
+                if out:
+                    break
+        ctx['extra_evals'] += n
+        ctx['notes'].append(f'abandoned requests (awaitable cancelled while outstanding) answered late, in several response orders: {n} histories')
+        return out
 
     def nontrivial(self, case, obs):
         return any(o['pending'] >= 3 for o in obs['obs']) and any(op[0] == 'send_batch' for op in case['ops'])
